@@ -1,9 +1,123 @@
-(* C01 -- placeholder while the proofs are being built *)
-From Verif Require Import Prelude Barcode QRM QRSpec.
-Example C01_sanity :
-  match qr_encode [104;101;108;108;111] 1 0 3 with
-  | Ok bc => qr_decode_rows (bc_rows bc) = Some [104;101;108;108;111]
+(* C01 -- QR Code: every accepted content decodes back to exactly that content.
+   Property theorems only; proofs live in proofs/QRP*.v and proofs/QRProps.v.
+
+   Model: model/QRMBits.v (mode encoders, version search, padding), QRMBlocks.v
+   (block split, Reed-Solomon, interleave), QRMRender.v (function patterns,
+   placement, masks), QRM.v (qr_encode content level mode mask).  The mask is a
+   parameter: render's penalty-based choice is not constrained by the property,
+   the theorems hold for each of the 8 masks (DESIGN 2.2).
+   Specification: spec/QRSpec.v, written from ISO/IEC 18004: qr_valid_rows and
+   qr_decode_rows read the symbol like a reader (size -> version, both format
+   copies BCH-valid and equal, version information, unmasking, codewords in
+   placement order, de-interleaving, every block syndrome-free, segment parsing,
+   terminator / pad check, all fixed patterns in place).
+   Strings are byte lists (is_bytes: every element in 0..255). *)
+From Verif Require Import Prelude Barcode GFM TabQr QRMBits QRMBlocks QRMRender QRM QRSpec
+  QRP1Tables QRP2Layout QRP3Pad QRP4Blocks QRP6Compose QRProps.
+
+(* The main theorem.  For every content, level value, mode among Auto / Numeric /
+   AlphaNumeric / Unicode and mask: if the encoder returns a barcode, its image is a
+   structurally valid symbol and the reference decoder returns byte-for-byte the
+   content that was passed in.  (Auto: whichever of the three encoders accepted.) *)
+Theorem C01_roundtrip : forall content level mode mask bc,
+  is_bytes content -> valid_encoding mode -> 0 <= mask < 8 ->
+  qr_encode content level mode mask = Ok bc ->
+  qr_valid_rows (bc_rows bc) = true /\ qr_decode_rows (bc_rows bc) = Some content.
+Proof. exact qr_c01_roundtrip. Qed.
+Print Assumptions C01_roundtrip.
+
+(* What the reader finds: the version of the symbol size, the requested level, the
+   mask, conformant terminator / padding / remainder bits, and every Reed-Solomon
+   block of the ISO block structure syndrome-free. *)
+Theorem C01_reading : forall content level mode mask bc,
+  is_bytes content -> valid_encoding mode -> 0 <= mask < 8 ->
+  qr_encode content level mode mask = Ok bc ->
+  exists r l v,
+    qr_read_rows (bc_rows bc) = Some r /\ level_of_Z level = Some l
+    /\ bc_width bc = spec_size v /\ 1 <= v <= 40
+    /\ rd_version r = v /\ rd_level r = l /\ rd_mask r = mask /\ rd_content r = content
+    /\ rd_padding_ok r = true /\ rd_remainder_ok r = true
+    /\ forallb (block_ok (bl_e (spec_blocks v l))) (rd_blocks r) = true.
+Proof. exact qr_c01_reading. Qed.
+Print Assumptions C01_reading.
+
+(* Layer 1 -- the tables of the source (regenerated into gen/TabQr.v on every run) are
+   the ISO tables: the 160 block-structure rows, the 32 format words = BCH(15,5) xor
+   101010000010010 and the 34 version words = Golay(18,6), both computed; the
+   45-character set; the alignment positions of Annex E for all 40 versions (the Go
+   code computes them with floats); the character count widths; and no accepted
+   character count overflows its count field. *)
+Theorem C01_tables :
+  qr_version_infos = iso_rows
+  /\ qr_format_infos
+     = map (fun l => (level_Z l, map (fun m => (m, word_bits 15 (format_word l m))) (sseq 0 8))) all_levels
+  /\ qr_version_bits = map (fun v => (v, word_bits 18 (version_word v))) (sseq 7 34)
+  /\ qr_charset = iso_alnum
+  /\ (forall v, 1 <= v <= 40 -> alignment_placements v = Ok (alignment_centres v))
+  /\ (forall v, 1 <= v <= 40 ->
+        char_count_bits v qr_numeric_mode = spec_ccb SNumeric v
+        /\ char_count_bits v qr_alphanumeric_mode = spec_ccb SAlnum v
+        /\ char_count_bits v qr_byte_mode = spec_ccb SByte v)
+  /\ (forall vi m n, In vi version_infos -> 0 <= n ->
+        4 + spec_ccb m (vi_version vi) + spec_data_bits m n <= 8 * total_data_bytes vi ->
+        n < 2 ^ spec_ccb m (vi_version vi)).
+Proof. exact qr_c01_tables. Qed.
+Print Assumptions C01_tables.
+
+(* Layer 2 -- layout of each of the 40 versions: function-module map = ISO map,
+   zig-zag order = the specification's column-pair order, duplicate-free, disjoint from
+   the function modules, of length 8*codewords + remainder bits, fixed patterns of the
+   prescribed colour, format targets = the two ISO copies (record layout_facts);
+   and the 8 mask predicates are those of Table 10 for all coordinates. *)
+Theorem C01_layout :
+  (forall v, 1 <= v <= 40 ->
+     exists occ res0 order,
+       base_matrix v = Ok (occ, res0) /\ iterate_modules occ = Ok order
+       /\ layout_facts v occ res0 order)
+  /\ (forall mask x y, 0 <= mask < 8 -> 0 <= x -> 0 <= y -> mask_bit mask x y = spec_mask mask x y).
+Proof. exact qr_c01_layout. Qed.
+Print Assumptions C01_layout.
+
+(* Layer 3 -- each mode encoder against the reader's segment parser, for contents of
+   any length: exactly 8*totalDataBytes bits, parsed back to the content, conformant
+   terminator and padding. *)
+Theorem C01_segments : forall m content level bits vi,
+  (m = SByte -> is_bytes content) ->
+  encoder_of m content level = Ok (bits, vi) ->
+  in_mode_alphabet m content = true
+  /\ zlength bits = 8 * total_data_bytes vi
+  /\ exists rest, parse_segments (S (length bits)) (vi_version vi) bits = Some (content, rest)
+       /\ padding_ok rest = true.
+Proof. exact qr_c01_segments. Qed.
+Print Assumptions C01_segments.
+
+(* Layer 3 -- block split, Reed-Solomon and interleaving of every table row: the
+   reader's de-interleaver recovers blocks that are all syndrome-free, carry the ISO
+   number of check codewords and whose data is the bit stream (record blocks_facts). *)
+Theorem C01_blocks : forall bits vi l,
+  In vi version_infos -> level_of_Z (vi_level vi) = Some l ->
+  zlength bits = 8 * total_data_bytes vi ->
+  exists data, codewords_of_bits bits vi = Ok data /\ blocks_facts (vi_version vi) l bits data.
+Proof. exact qr_c01_blocks. Qed.
+Print Assumptions C01_blocks.
+
+(* the hypotheses are satisfiable: concrete symbols of versions 1, 2 (numeric), 6 and
+   12, four masks, evaluated by the kernel *)
+Example C01_nonvacuous_hello :
+  match qr_encode [104; 101; 108; 108; 111] 1 0 3 with
+  | Ok bc => qr_decode_rows (bc_rows bc) = Some [104; 101; 108; 108; 111]
+             /\ qr_valid_rows (bc_rows bc) = true /\ bc_width bc = 21
   | _ => False
   end.
-Proof. vm_compute. reflexivity. Qed.
-Print Assumptions C01_sanity.
+Proof. exact qr_example_hello. Qed.
+
+Example C01_nonvacuous_versions :
+  forallb (fun p =>
+    match qr_encode (repeat 55 (Z.to_nat (fst p))) 0 1 (snd p) with
+    | Ok bc => match qr_decode_rows (bc_rows bc) with
+               | Some c => (zlength c =? fst p) && qr_valid_rows (bc_rows bc)
+               | None => false
+               end
+    | _ => false
+    end) [(41, 0); (42, 1); (300, 2); (1000, 5)] = true.
+Proof. exact qr_example_versions. Qed.
